@@ -424,7 +424,7 @@ fn main() {
             }
         }
     }
-    #[cfg(feature = "mm")]
+    #[cfg(all(feature = "mm", not(feature = "libm")))]
     {
         let mut rng = Rng(seed ^ 0x11C);
         for _ in 0..(if thorough { 100_000 } else { 10_000 }) {
